@@ -59,7 +59,11 @@ def case(task):
             ref = gc.ref_chunks(st, fields.T0, X, Y, Z, ref_fn)
             s1 = max(float(ref['_scale1'].max()), 1e-3)
             with gc.quiet():
-                vals = {k: rel[k] for k in ALG + FDKEYS}
+                vals = {k: np.array(rel[k], copy=True)
+                        for k in ALG + FDKEYS}
+            if N == Ns[0]:
+                res['order'] = gc.order_dependence(
+                    desc, seed, p, N, ALG + FDKEYS, vals, with_T=False)
             for k in ALG + FDKEYS:
                 rmax = float(np.abs(ref[k]).max())
                 sc = max(rmax, 1e-12) if k in ALG else max(
@@ -121,6 +125,13 @@ def main(tier):
             run.violation(f"C19:raised:{desc[0]}", f"{tag}: {r['raised']}",
                           {'task': r['task']})
             continue
+        for k, d in r.get('order', {}).items():
+            if not d <= 1e-9:
+                run.violation(f"C19:order-dependent:{k}",
+                              f"{tag}: {k} differs by {d:.2e} (relative) "
+                              "when the keys are requested in reverse order "
+                              "on a fresh instance",
+                              {'task': r['task'], 'key': k})
         for k, (e_lo, e_hi) in r['err'].items():
             nontrivial = r['refmax'][k] > 1e-6
             run.seen(desc, p, k, nontrivial)
